@@ -7,7 +7,7 @@
 From KV Require Import Model.Base Model.Json.
 Local Open Scope list_scope.
 
-Record score := mkCore {
+Record score := mkCoreD {
   c_types : option (list string);
   c_enum : list json;
   c_nullable : bool; c_readOnly : bool; c_writeOnly : bool; c_allowEmpty : bool;
@@ -18,8 +18,12 @@ Record score := mkCore {
   c_minItems : N; c_maxItems : option N;
   c_required : list string;
   c_minProps : N; c_maxProps : option N;
-  c_apHas : option bool
+  c_apHas : option bool;
+  c_default : option json     (* `default` (nil and JSON null are both "no default") *)
 }.
+(* a core without default *)
+Definition mkCore a1 a2 a3 a4 a5 a6 a7 a8 a9 a10 a11 a12 a13 a14 a15 a16 a17 a18 a19 a20 a21 a22 : score :=
+  mkCoreD a1 a2 a3 a4 a5 a6 a7 a8 a9 a10 a11 a12 a13 a14 a15 a16 a17 a18 a19 a20 a21 a22 None.
 
 Inductive schema :=
 | Sch (c : score) (not_ : option schema) (oneOf anyOf allOf : list schema)
